@@ -1,7 +1,7 @@
 (* C09 whole file, part 1: region bookkeeping, placed sections as index leaves, and the data blocks of
    the bigWig writer model decoded by the independent decoder.  Reuses the C01 development
    (Proofs/BigWigFile*.v: the writer's data as "pieces", process_runs, ranges). *)
-From BT Require Import Base.Util Base.LE Base.Float Generated.Consts Model.RTree Model.BBIFile Model.BigWigWrite
+From BT Require Import Base.Util Base.LE Base.Float Generated.Consts Model.RTree Model.BBIFile Model.BigWigWrite Model.BigWigWriteZ
   Proofs.Chunks Proofs.BigWigQuery Proofs.RTreeAbs Proofs.RTreeBuild Proofs.RTreeCodec Proofs.FileRegions
   Proofs.BigWigFile Proofs.BigWigFileChroms Proofs.BigWigFileData Proofs.BigWigValues
   Spec.FormatDecode Proofs.C09Base Proofs.C09Codec Proofs.C09Chrom Proofs.C09RTree.
@@ -83,23 +83,49 @@ Proof.
     apply (IH c id Hnd' Hin).
 Qed.
 
+(* ---------- the bytes of a block: raw, or through the inflate oracle ---------- *)
+(* [c]: are blocks compressed; the header's buffer size is 0 exactly when they are not *)
+Definition blk_mode (c : bool) (ubuf : N) : Prop := (c = false /\ ubuf = 0) \/ (c = true /\ 0 < ubuf).
+(* the oracle inverts the compressor on every byte range of the image that holds a compressed block *)
+Definition inflate_ok (compress : list N -> list N) (img : list N) (inflate : N -> N -> option (list N)) : Prop :=
+  forall off b, has_at img off (compress b) -> inflate off (Nlen (compress b)) = Some b.
+
+Lemma zsec_spans compress c d : sd_chrom (zsec compress c d) = sd_chrom d /\ sd_start (zsec compress c d) = sd_start d
+  /\ sd_end (zsec compress c d) = sd_end d.
+Proof. destruct c; repeat split; reflexivity. Qed.
+
+Lemma block_bytes_c compress c img n inflate ubuf s d :
+  n = Nlen img -> placed img s (zsec compress c d) -> blk_mode c ubuf ->
+  (c = true -> inflate_ok compress img inflate /\ Nlen (sd_bytes d) <= ubuf) ->
+  block_bytes img n inflate ubuf (lf_of s) = Some (sd_bytes d).
+Proof.
+  intros Hn (Hat & Hsz & _) Hm Hc. unfold block_bytes. cbn [lf_of fl_off fl_size].
+  destruct Hm as [[-> ->]|[-> Hu]].
+  - change (0 =? 0) with true. cbv iota. cbn [zsec] in *. exact (bytes_at_has_w img n (s_off s) _ (s_size s) Hat Hn Hsz).
+  - destruct (Hc eq_refl) as [Hinf Hle]. replace (ubuf =? 0) with false by (symmetry; apply N.eqb_neq; lia).
+    cbn [zsec sd_bytes] in Hat, Hsz. pose proof (has_at_bound img _ _ Hat) as Hb. rewrite <- Hn, <- Hsz in Hb.
+    rewrite check_true by (apply N.leb_le; exact Hb).
+    rewrite Hsz, (Hinf _ _ Hat). cbn [obind]. rewrite check_true by (apply N.leb_le; exact Hle). reflexivity.
+Qed.
+
 (* ---------- one data block ---------- *)
 Definition piece_recs (p : piece) : list frec := map (rec_of (fst p)) (snd p).
 
-Lemma data_block_ok img n inflate chroms ips (p : piece) s len :
-  n = Nlen img -> placed img s (psec p) -> piece_ok p -> wf_vals len (snd p) ->
+Lemma data_block_gen img n inflate chroms ubuf ips (p : piece) s len :
+  block_bytes img n inflate ubuf (lf_of s) = Some (sd_bytes (psec p)) ->
+  s_chrom s = sd_chrom (psec p) -> s_start s = sd_start (psec p) -> s_end s = sd_end (psec p) ->
+  piece_ok p -> wf_vals len (snd p) ->
   chrom_size chroms (fst p) = Some len -> Nlen (snd p) <= ips ->
-  data_block img n false inflate true chroms 0 ips (lf_of s) = Some (piece_recs p).
+  data_block img n false inflate true chroms ubuf ips (lf_of s) = Some (piece_recs p).
 Proof.
-  intros Hn (Hat & Hsz & Hc & Hs & He) (Hne & Hlen & Hid & Hvals) Hwf Hcs Hips.
+  intros Hbytes Hc Hs He (Hne & Hlen & Hid & Hvals) Hwf Hcs Hips.
   destruct p as [id items]. cbn [fst snd] in *. destruct items as [|f r] eqn:Ei; [congruence|]. rewrite <- Ei in *.
   assert (Henc : encode_section id items = Ok (psec (id, items))).
   { unfold psec. cbn [fst snd]. apply encode_section_ok. subst items. discriminate. }
   destruct (parse_wig_section_ok id items _ Henc Hid Hvals Hlen) as (Hparse & Hch & _ & (f' & Hf' & Hst & Hen)).
   assert (f' = f) by (subst items; cbn in Hf'; congruence). subst f'.
-  unfold data_block, block_bytes. change (0 =? 0) with true. cbv iota.
+  unfold data_block. rewrite Hbytes. cbn [obind].
   cbn [lf_of fl_off fl_size fl_span fsp p_sc p_sb p_eb sect_span sc sb eb].
-  rewrite (bytes_at_has_w img n (s_off s) _ (s_size s) Hat Hn Hsz). cbn [obind].
   rewrite Hc, Hch, Hcs. cbn [obind]. rewrite Hparse. cbn [obind].
   assert (Hbounds : forall v, In v items -> sd_start (psec (id, items)) <= v_start v /\ v_end v <= sd_end (psec (id, items))
                                             /\ v_start v <= v_end v /\ v_end v <= len).
@@ -117,6 +143,29 @@ Proof.
   apply forallb_forall. intros x Hx. apply in_map_iff in Hx as [v [<- Hv]]. cbn [rec_of fr_chrom fr_start fr_end].
   destruct (Hbounds v Hv) as (H1 & H2 & H3 & H4). rewrite Hs, He, N.eqb_refl. cbn [andb].
   rewrite !andb_true_iff. repeat split; now apply N.leb_le.
+Qed.
+
+Lemma data_block_c compress c img n inflate chroms ubuf ips (p : piece) s len :
+  n = Nlen img -> placed img s (zsec compress c (psec p)) -> blk_mode c ubuf ->
+  (c = true -> inflate_ok compress img inflate /\ Nlen (sd_bytes (psec p)) <= ubuf) ->
+  piece_ok p -> wf_vals len (snd p) -> chrom_size chroms (fst p) = Some len -> Nlen (snd p) <= ips ->
+  data_block img n false inflate true chroms ubuf ips (lf_of s) = Some (piece_recs p).
+Proof.
+  intros Hn Hpl Hm Hc Hok Hwf Hcs Hips.
+  pose proof (block_bytes_c compress c img n inflate ubuf s (psec p) Hn Hpl Hm Hc) as Hb.
+  destruct Hpl as (_ & _ & E1 & E2 & E3). destruct (zsec_spans compress c (psec p)) as (Z1 & Z2 & Z3).
+  rewrite Z1 in E1. rewrite Z2 in E2. rewrite Z3 in E3.
+  exact (data_block_gen img n inflate chroms ubuf ips p s len Hb E1 E2 E3 Hok Hwf Hcs Hips).
+Qed.
+
+Lemma data_block_ok img n inflate chroms ips (p : piece) s len :
+  n = Nlen img -> placed img s (psec p) -> piece_ok p -> wf_vals len (snd p) ->
+  chrom_size chroms (fst p) = Some len -> Nlen (snd p) <= ips ->
+  data_block img n false inflate true chroms 0 ips (lf_of s) = Some (piece_recs p).
+Proof.
+  intros Hn Hpl. apply (data_block_c (fun b => b) false img n inflate chroms 0 ips p s len Hn Hpl).
+  - left. split; reflexivity.
+  - discriminate.
 Qed.
 
 (* ---------- all records, in file order ---------- *)
